@@ -31,6 +31,17 @@ def discharge(ob, timeout_ms=Z3_TIMEOUT_MS, want_model=True):
         if r != z3.unknown:
             s = s2
             backend = "z3(seed7)"
+    if r == z3.unknown and getattr(ob, "qfacts", None):
+        # Refutation attempt: drop the quantified well-typedness FACTS (they only restrict values under binders and are
+        # what blocks z3's model finder); the path condition, assumed invariants and contracts are all kept.
+        drop = set(ob.qfacts)
+        s3 = z3.Solver()
+        s3.set("timeout", timeout_ms)
+        s3.add(*[h for i, h in enumerate(ob.hyps) if i not in drop])
+        s3.add(z3.Not(ob.goal))
+        r3 = s3.check()
+        if r3 == z3.sat:
+            r, s, backend = r3, s3, "z3(model search without quantified typing facts)"
     ob.time = time.time() - t0
     ob.backend = backend
     if r == z3.unsat:
